@@ -58,6 +58,8 @@ func checkC20(c *Ctx, r *Report) {
 	foldRangeRule(c, r, "C20.R4.dedup-fold", "normalizedString", "records whose owners differ only in the case of that letter are kept apart by Dedup although IsDuplicate calls them equal")
 	c20VerdictInputs(c, r, "C20.R1.verdict-inputs")
 	c20DedupOnce(c, r, "C20.R4.dedup-once")
+	c20SvcbPackErrors(c, r, "C20.R1.svcb-pack-errors")
+	c20CopyNetValues(c, r, "C20.R3.copynet-values")
 }
 
 // c20R5: sort.Slice(x, less): the less closure indexes x and nothing else with its two index parameters
@@ -252,7 +254,10 @@ func foldRule(c *Ctx, r *Report, rule string) {
 		}
 		return true
 	})
-	type fold struct{ lo, hi, bit int64; op string }
+	type fold struct {
+		lo, hi, bit int64
+		op          string
+	}
 	folds := map[string][]fold{}
 	var problems []string
 	lenCheck, neqCheck := false, false
